@@ -3,7 +3,7 @@
    ascii and string stay the Coq inductives. No Extract Constant. *)
 From Coq Require Import Extraction ExtrOcamlBasic.
 From TS Require Import Model.Str Model.Outcome Model.Unicode Model.Rename Spec.SerdeCase Spec.C16Spec
-  Model.Syntax Model.Attrs Model.TargetOs Spec.TargetOsRule.
+  Model.Integer Spec.JsSafe Model.Syntax Model.Attrs Model.TargetOs Spec.TargetOsRule.
 Extraction Language OCaml.
 Set Extraction AccessOpaque.
 Extraction "model.ml"
@@ -15,4 +15,8 @@ Extraction "model.ml"
   SerdeCase.serde_field_name SerdeCase.serde_variant_name SerdeCase.apply_to_field SerdeCase.apply_to_variant
   SerdeCase.rule_from_str
   C16Spec.known_C16 C16Spec.good_C16 C16Spec.serde_name
+  Integer.u53_try_from Integer.i54_try_from Integer.u53_into_u64 Integer.i54_into_i64 Integer.widen
+  Integer.narrow_unsigned Integer.narrow_signed Integer.usize_from_u53_saturated Integer.int_cmp Integer.int_eqb
+  Integer.deser_u53 Integer.deser_i54 Integer.ser_int Integer.ser_text JsSafe.js_safe JsSafe.js_safe_unsigned
+  BinInt.Z.eqb BinInt.Z.compare
   TargetOs.accept_target_os TargetOsRule.os_rule TargetOsRule.cfg_parsable.
